@@ -437,11 +437,14 @@ func runC04(r *rep.Report, thorough bool) error {
 	var files []gobuild.GenFile
 	var good []*analysed
 	jsonCols := map[string]map[string][]string{} // case -> table -> json column names
+	realByCase := map[string]map[string]string{}
+	nameClash := map[string]bool{}
 	for _, a := range as {
 		if a.Ana == nil || a.Env == nil {
 			continue
 		}
 		real, constraints, out := realSQLDecls(a, l.Mod.Root)
+		realByCase[a.Case.ID] = real
 		r.Hist("sql:" + out.Class)
 		if out.Class != "ok" {
 			continue
@@ -453,6 +456,26 @@ func runC04(r *rep.Report, thorough bool) error {
 		compareSchema(r, a, reply, real, constraints, true)
 		in := map[string]any{"case": a.Case.ID, "sources": a.Case.Sources()}
 		jsonCols[a.Case.ID] = map[string][]string{}
+		{
+			// two JSON shapes under one validator name anywhere in the file (a recorded finding)
+			bodies := map[string]string{}
+			for _, tb := range reply["tables"].([]any) {
+				tm := tb.(map[string]any)
+				if tm["json"] == nil {
+					continue
+				}
+				for _, jc := range tm["json"].([]any) {
+					for _, f := range jc.(map[string]any)["funcs"].([]any) {
+						fm := f.(map[string]any)
+						id, txt := fm["id"].(string), sqlTokens(fm["text"].(string))
+						if prev, ok := bodies[id]; ok && prev != txt {
+							nameClash[a.Case.ID] = true
+						}
+						bodies[id] = txt
+					}
+				}
+			}
+		}
 		for _, tb := range reply["tables"].([]any) {
 			tm := tb.(map[string]any)
 			if _, isDiag := tm["diag"]; isDiag {
@@ -535,7 +558,9 @@ func runC04(r *rep.Report, thorough bool) error {
 		for _, col := range cols {
 			var ft *irdump.Ty
 			for _, f := range td.Fields {
-				if f.Name == col {
+				// a field tagged json:"-" is left zero by the value generator (it cannot survive a
+				// round trip): its zero value is not a document to judge the validators with
+				if f.Name == col && reflect.StructTag(f.Tag).Get("json") != "-" {
 					ft = f.T
 				}
 			}
@@ -565,6 +590,39 @@ func runC04(r *rep.Report, thorough bool) error {
 			if res[0] != "true" && res[0] != "null" {
 				r.Fail(rep.Failure{Signature: "c04:go-document-rejected" + c04Shape(a, ft, decl), What: "the CHECK constraint of a jsonb column evaluates to " + res[0] + " on a document Go emits for the column's type", Input: in, Observed: res[0]})
 			}
+			// the same documents through the *real* script, when its validators are instances of
+			// the templates (recognised, and printed back by the model to the real text)
+			if fn, _ := reply["fn"].(string); fn != "" {
+				if funcs, texts, ok := pgReachable(realByCase[ln.Case], fn); ok {
+					rr, err := d.Call(map[string]any{"op": "c04.evalReal", "funcs": funcs, "fn": fn, "docs": docs})
+					if err != nil {
+						return err
+					}
+					same := true
+					for i, t := range strsOf(rr["texts"]) {
+						if sqlTokens(t) != sqlTokens(texts[i]) {
+							same = false
+						}
+					}
+					if !same {
+						r.Hist("real-script:not-an-instance-of-the-templates")
+					} else {
+						r.Hist("real-script:evaluated")
+						rres := strsOf(rr["results"])
+						if rres[0] != res[0] && rres[0] != "true" && rres[0] != "null" {
+							r.Fail(rep.Failure{Signature: realSig(nameClash[ln.Case], "c04:go-document-rejected-by-the-real-script"+c04Shape(a, ft, decl)), What: "the validators of the real script (recognised as template instances, evaluated by the Lean semantics) give " + rres[0] + " on a document Go emits for the column's type; the model's validators give " + res[0], Input: in, Observed: texts})
+						}
+						for i, cls := range classes {
+							if rres[i+1] != res[i+1] && rres[i+1] != "false" {
+								cb, _ := json.Marshal(docs[i+1])
+								r.Fail(rep.Failure{Signature: realSig(nameClash[ln.Case], "c04:corruption-not-rejected-by-the-real-script:"+cls+c04Shape(a, ft, decl)), What: "the validators of the real script do not reject a document corrupted by " + cls + " (" + rres[i+1] + "); the model's validators give " + res[i+1], Input: map[string]any{"case": ln.Case, "table": ln.Type, "column": col, "corrupted": string(cb), "sources": a.Case.Sources()}, Observed: texts})
+							}
+						}
+					}
+				} else {
+					r.Hist("real-script:not-recognised")
+				}
+			}
 			for i, cls := range classes {
 				r.Hist("corruption:" + cls)
 				if res[i+1] != "false" {
@@ -576,6 +634,15 @@ func runC04(r *rep.Report, thorough bool) error {
 		}
 	}
 	return nil
+}
+
+// realSig: when two JSON shapes share a validator name in the file (a recorded finding), what the
+// surviving body does to the other shape's documents is that finding seen through a document
+func realSig(clash bool, sig string) string {
+	if clash {
+		return "c04:real-script-verdict-differs:two-types-one-validator-name"
+	}
+	return sig
 }
 
 // c04Shape: known shapes of the column type under which validators and Go disagree
